@@ -285,6 +285,24 @@ fn run_isolated(c: &[Val]) -> Val {
     vh::val::parse(&text)
 }
 
+/// An appender supplied as a `log::Log` (blanket `impl<T: Log> Append for T`) whose own
+/// `enabled()` refuses everything: the filter chain alone decides whether it receives a record.
+#[derive(Debug)]
+struct LogSink {
+    idx: usize,
+    rec: Rec,
+}
+
+impl log::Log for LogSink {
+    fn enabled(&self, _m: &log::Metadata) -> bool {
+        false
+    }
+    fn log(&self, _record: &log::Record) {
+        self.rec.lock().unwrap().push(Val::L(vec![Val::N(1), Val::N(self.idx as u128)]));
+    }
+    fn flush(&self) {}
+}
+
 fn run(case: &Val) -> Val {
     let c = case.l();
     if c.len() == 5 {
@@ -296,7 +314,8 @@ fn run(case: &Val) -> Val {
     let mut builder = Config::builder();
     for (i, a) in c[2].l().iter().enumerate() {
         let a = a.l();
-        let fails = a[0].b();
+        let kind = a[0].n(); // 0 succeeds, 1 fails, 2 a log::Log-backed appender (succeeds)
+        let fails = kind == 1;
         let mut ab = Appender::builder();
         for (k, f) in a[1].l().iter().enumerate() {
             let f = f.l();
@@ -311,6 +330,10 @@ fn run(case: &Val) -> Val {
                 _ => Box::new(ThresholdFilter::new(level_filter(f[1].n()))),
             };
             ab = ab.filter(Box::new(SpyFilter { app: i, k, inner, rec: rec.clone() }));
+        }
+        if kind == 2 {
+            builder = builder.appender(ab.build(format!("a{}", i), Box::new(LogSink { idx: i, rec: rec.clone() })));
+            continue;
         }
         builder = builder.appender(ab.build(
             format!("a{}", i),
